@@ -33,8 +33,19 @@ extern "C" void harness_c01_pairs()
 // cross-kind pairs: eq must be false or hashes equal (cheap, all T^2 pairs)
 extern "C" void harness_c01_cross()
 {
-    int ta = (int)verif_choice("ta", T_COUNT), tb = (int)verif_choice("tb", T_COUNT);
-    verif_assume(verif_param("bothorders", 0) ? ta != tb : ta < tb); // eq is checked to be symmetric in harness_c01_pairs
+    int ta, tb;
+    if (verif_param("allpairs", 0)) {
+        ta = (int)verif_choice("ta", T_COUNT);
+        tb = (int)verif_choice("tb", T_COUNT);
+        verif_assume(ta < tb); // eq is checked to be symmetric in harness_c01_pairs
+    } else {
+        // quick tier: the template pairs that can produce objects of the same class (every other pair differs in its type code)
+        static const int PAIRS[][2] = {{T_INT, T_RAT}, {T_INT, T_CPLX}, {T_RAT, T_CPLX}, {T_ADD, T_ADD2}, {T_ADD, T_ADDK}, {T_ADD2, T_ADDK}, {T_MUL, T_MULK}, {T_POW, T_POWQ},
+                                          {T_MINT, T_MINT0}, {T_IVAL, T_IVALINF}, {T_UINT, T_URAT}, {T_INT, T_ADDK}, {T_SYM, T_MULK}, {T_SYM, T_POW}, {T_DBL, T_CDBL}, {T_INT, T_POW}};
+        unsigned i = (unsigned)verif_choice("pair", sizeof(PAIRS) / sizeof(PAIRS[0]));
+        ta = PAIRS[i][0];
+        tb = PAIRS[i][1];
+    }
     RCP<const Basic> a = build(ta, "a"), b = build(tb, "b");
     if (eq(*a, *b)) {
         bool known = ((ta == T_ADD && tb == T_ADD2) || (ta == T_ADD2 && tb == T_ADD)) ? false : false;
